@@ -8,6 +8,8 @@ package harness
 
 import (
 	"fmt"
+	authtypes "github.com/cosmos/cosmos-sdk/x/auth/types"
+	oraclemod "github.com/elys-network/elys/x/oracle"
 	"math/rand"
 	"testing"
 	"time"
@@ -78,7 +80,13 @@ func runC16(t *testing.T, seed int64, n int, out *Out) {
 		life := []uint64{0, 1, 3, 10, 10, 1_000_000}[r.Intn(6)]
 		params := k.GetParams(ctx)
 		params.PriceExpiryTime, params.LifeTimeInBlocks = expiry, life
+		params.Multiplier = []uint64{6, 6, 9, 18}[r.Intn(4)]
 		k.SetParams(ctx, params)
+		im := oraclemod.NewIBCModule(k)
+		relayer := sdk.AccAddress(authtypes.NewModuleAddress("relayer"))
+		var bandIds []uint64 // request ids acknowledged so far in this script
+		bandLen := map[uint64]int{}
+		bandSeq := uint64(0)
 		// per-script sub-alphabets (3..6 assets, 3..6 sources) so that the same names meet often
 		pick := func(all []string, m int) []string {
 			idx := r.Perm(len(all))[:m]
@@ -95,7 +103,7 @@ func runC16(t *testing.T, seed int64, n int, out *Out) {
 		}
 		now := []int64{0, 100, 1<<32 - 3, 1_790_000_000, 1_790_000_000}[r.Intn(5)]
 		height := int64([]int64{0, 1, 10, 1000}[r.Intn(4)])
-		out.Line(J{"t": "c16.begin", "id": seq, "expiry": fmt.Sprint(expiry), "life": fmt.Sprint(life), "authority": w.Gov,
+		out.Line(J{"t": "c16.begin", "id": seq, "expiry": fmt.Sprint(expiry), "life": fmt.Sprint(life), "mult": fmt.Sprint(params.Multiplier), "authority": w.Gov,
 			"assets": assets, "sources": sources})
 
 		storeDump := func() [][]string {
@@ -238,6 +246,48 @@ func runC16(t *testing.T, seed int64, n int, out *Out) {
 			}
 			if reviveFeed != "" {
 				c = r.Intn(34) // a feed (single or multiple) signed by the removed account
+			}
+			if reviveSet == "" && reviveFeed == "" && r.Intn(9) == 0 {
+				// BandChain traffic: a request acknowledged with an id, or the (possibly late, possibly unknown) answer to one
+				bandSeq++
+				if len(bandIds) == 0 || r.Intn(2) == 0 {
+					id := uint64(100 + r.Intn(6))
+					if r.Intn(3) == 0 && len(bandIds) > 0 {
+						id = bandIds[len(bandIds)-1] + 1
+					}
+					syms := pick(assets, 1+r.Intn(min(3, len(assets))))
+					res, _ := callTx(ctx, func(c sdk.Context) error {
+						return im.OnAcknowledgementPacket(c, bandRequestPacket(bandSeq, params, syms), bandRequestAck(id), relayer)
+					})
+					if res == "ok" {
+						bandIds = append(bandIds, id)
+						bandLen[id] = len(syms)
+					}
+					emit(J{"op": "bandack", "reqId": fmt.Sprint(id), "symbols": syms, "res": res, "store": storeDump()})
+				} else {
+					id := bandIds[r.Intn(len(bandIds))]
+					if r.Intn(8) == 0 {
+						id = 999 // nobody asked
+					}
+					nr := 1 + r.Intn(3)
+					if n0, ok := bandLen[id]; ok && r.Intn(4) != 0 {
+						nr = n0 // as many rates as that request had symbols, most of the time
+					}
+					rates := make([]uint64, nr)
+					ratesS := make([]string, nr)
+					for i := range rates {
+						rates[i] = uint64(1 + r.Int63n(1_000_000_000_000))
+						ratesS[i] = fmt.Sprint(rates[i])
+					}
+					res, _ := callTx(ctx, func(c sdk.Context) error {
+						if ack := im.OnRecvPacket(c, bandResponsePacket(bandSeq, params, id, rates), relayer); !ack.Success() {
+							return fmt.Errorf("error acknowledgement")
+						}
+						return nil
+					})
+					emit(J{"op": "bandanswer", "reqId": fmt.Sprint(id), "rates": ratesS, "res": res, "store": storeDump()})
+				}
+				continue
 			}
 			if reviveSet != "" {
 				a := reviveSet
